@@ -3,15 +3,23 @@ import z3, itertools
 from .pipeline import *
 
 def art_eq(a,b):
-    """z3 term: two artifact dicts (path -> digest term list) are equal"""
+    """z3 term: two artifact dicts (path -> digest term list, or path -> {algorithm: digest term list}) are equal"""
     if set(a)!=set(b): return z3.BoolVal(False)
-    return z3.And(*[tbv(x)==tbv(y) for p in a for x,y in zip(a[p],b[p])]) if a else z3.BoolVal(True)
+    cs=[]
+    for p in a:
+        x,y=a[p],b[p]
+        if isinstance(x,dict) or isinstance(y,dict):
+            x=x if isinstance(x,dict) else {'sha256':x}; y=y if isinstance(y,dict) else {'sha256':y}
+            if set(x)!=set(y): return z3.BoolVal(False)
+            cs+=[tbv(u)==tbv(v) for al in x for u,v in zip(x[al],y[al])]
+        else: cs+=[tbv(u)==tbv(v) for u,v in zip(x,y)]
+    return z3.And(*cs) if cs else z3.BoolVal(True)
 
 class Agreement(PipelineBase):
     name='C07.threshold_agreement'
     def __init__(self,nlinks=2,**kw):
         PipelineBase.__init__(self,**kw); self.nlinks=nlinks
-        self.bounds={'links':nlinks,'threshold':'any u32','materials':'per link any subset of {a,b}, one free digest byte per entry','products':'per link any subset of {p,a} (a is also a material path), free digest byte per entry',
+        self.bounds={'links':nlinks,'threshold':'any u32','materials':'per link any subset of {a,b}, one free digest byte per entry; b recorded under sha256 by the first link and under sha256, sha512 or both by the others','products':'per link {} or {a} (a is also a material path), free digest byte',
                      'signature_validity':'link 0 valid; other links free (intact/over/made_by)','hash_map_iteration':'every permutation'}
         self.witnesses=['ok_thr2_agree','err_disagree','ok_thr1_disagree']
     def mk_args(self,run):
@@ -21,10 +29,14 @@ class Agreement(PipelineBase):
         for i in range(n):
             mats={}
             for p in ('a','b'):
-                if run.pick(2,'m%d%s'%(i,p)): mats[p]=[z3.BitVec('dm_%d_%s'%(i,p),8)]
+                if run.pick(2,'m%d%s'%(i,p)):
+                    mats[p]=[z3.BitVec('dm_%d_%s'%(i,p),8)]
+                    if p=='b' and i>=1:      # the digests of b may be recorded under sha256, sha512 or both: the algorithm set is part of what must agree
+                        al=run.pick(3,'alg%d'%i)
+                        if al: mats[p]={'sha512':[z3.BitVec('dm5_%d_%s'%(i,p),8)]} if al==1 else {'sha256':mats[p],'sha512':[z3.BitVec('dm5_%d_%s'%(i,p),8)]}
             prods={}
             # `a` may be both a material and a product (a file modified in place): the two tables are compared separately
-            for p in ('p','a'):
+            for p in ('a',):
                 if run.pick(2,'p%d%s'%(i,p)): prods[p]=[z3.BitVec('dp_%d_%s'%(i,p),8)]
             if i==0: sd=SigD(i,i)
             else:
